@@ -68,7 +68,10 @@ def case(job):
     total = st['accessible'] + st['tuned'] + st['failed']
     present = {e['trigger'] for e in expected}
     # sheet-level failures are attributed to ONE trigger: the most disruptive construct present in the sheet
-    trigs = [next((t for t in ('unserialisable-declaration', 'var-shared', 'root-rule-own-colour', 'var-with-fallback', 'var-undefined') if t in present), 'plain')]
+    # ... and the unserialisable declaration is disruptive only when it actually aborted the file (the command says so); otherwise it is inert
+    aborted = 'Error processing' in ((r['out'] or '') + (r['err'] or ''))
+    order = (['unserialisable-declaration'] if aborted else []) + ['var-shared', 'root-rule-own-colour', 'var-with-fallback', 'var-undefined']
+    trigs = [next((t for t in order if t in present), 'plain')]
     if total != n: problems.append((f'rules with a text colour: {n}, counted: {total}', '+'.join(trigs), st))
     exp_counts = {c: sum(1 for e in expected if e['cat'] == c) for c in ('readable', 'adjusted', 'attention')}
     if (st['accessible'], st['tuned'], st['failed']) != (exp_counts['readable'], exp_counts['adjusted'], exp_counts['attention']) and total == n:
@@ -83,9 +86,13 @@ def case(job):
         used = {}
         for c in cards:
             k = used.get(c['selector'], 0); used[c['selector']] = k + 1
-            cand = [e for e in expected if e['selector'] == c['selector'] and H.rule_colours is not None]
-            cand = [e for e in cand if e['cat'] != 'readable' or True]
+            # several rules may share a selector (e.g. `html` at top level and inside @media): the k-th card under a selector belongs to
+            # the k-th rule of that selector that the independent classification calls adjusted (document order); when the
+            # classifications disagree (already reported as category-counts-differ) fall back to the k-th rule of that selector
+            same = [e for e in expected if e['selector'] == c['selector']]
+            cand = [e for e in same if e['cat'] == 'adjusted'] or same
             e = cand[min(k, len(cand) - 1)] if cand else None
+            pos = next((i for i, x in enumerate(same) if x is e), 0)
             if e is None: problems.append((f"report lists selector {c['selector']!r} that has no text colour in the input", 'plain', None)); continue
             after = H.css_rgb(c['after'])
             if after is None: problems.append((f"reported colour {c['after']!r} is not an opaque CSS colour", e['trigger'], None)); continue
@@ -99,7 +106,7 @@ def case(job):
             # the k-th rule WITH a colour declaration under that selector
             occ = [d_ for d_ in occ if any(x.lower_name == 'color' for x in d_)]
             if not occ: problems.append((f"rule {c['selector']!r} reported as adjusted is missing from the output", e['trigger'], None)); continue
-            d_ = occ[min(k, len(occ) - 1)]
+            d_ = occ[min(pos, len(occ) - 1)]      # same position among the rules of that selector that set a text colour
             rc = H.rule_colours(d_, oprops, dbg)
             written = H.css_rgb(rc[2]) if rc and rc[2] is not None else None
             if written != after:
@@ -111,8 +118,13 @@ def case(job):
                 if e['selector'] not in listed and total == n and exp_counts['attention'] == st['failed']:
                     problems.append((f"rule {e['selector']!r} needs attention but is not listed", e['trigger'], e))
     ncards = len(cards)
-    if trigs[0] in ('unserialisable-declaration', 'var-shared'):
+    if trigs[0] == 'var-shared':
         problems = [(k, trigs[0], d) for k, t, d in problems]
+    elif trigs[0] == 'unserialisable-declaration':
+        # the abort explains exactly "no output written" and "rules after the offending one not counted"; when a shared custom
+        # property is present as well, every other kind of failure on the sheet is attributed to that construct instead
+        other = 'var-shared' if 'var-shared' in present else trigs[0]
+        problems = [(k, trigs[0] if kind_of(k) in ('no-output-written', 'counted-not-exactly-once') else other, d) for k, t, d in problems]
     return {'name': name, 'opts': list(opts), 'n_rules': n, 'cards': ncards, 'problems': [(k, t, json.loads(json.dumps(d, default=str)) if d is not None else None) for k, t, d in problems], 'css': css, 'features': sorted(feats)}
 
 
